@@ -107,6 +107,39 @@ Proof.
 Qed.
 Print Assumptions C04_propagate_tilt_samples.
 
+(* the first sentence of the property at the level of the model: the OPD-ramp representation (no metadata)
+   and the metadata representation - a Tilt(x=a, y=b) plane anywhere in the chain, or Wavefront(tilt=[a, b]),
+   which wraps the same Tilt - give the same value at every plane coordinate both evaluate, whatever output box
+   and propagation shape each uses.  (For the fit_tilt representation see C04_fit_recovers_ramp.) *)
+Theorem C04_representations_agree :
+  forall (S : Scalar), is_ring S -> kernel_laws S -> forall (sq : Qc -> S)
+    (f : arr S) (a b dxr dxc dur duc wl z os : Qc) (offr offc : Z)
+    (oe : extent) (Pr Pc Ir Ic isr isc : Z) (shr shc : Qc)
+    (oe' : extent) (Pr' Pc' Ir' Ic' isr' isc' : Z) (shr' shc' sr sc : Qc) (i j i' j' : Z),
+  dur <> 0 -> duc <> 0 -> wl <> 0 -> z <> 0 -> os <> 0 ->
+  (0 < Pr)%Z -> (0 < Pc)%Z -> (0 < Pr')%Z -> (0 < Pc')%Z ->
+  tilted_window oe Pr Pc 0 0 = Some ((Ir, Ic), (isr, isc), (shr, shc)) ->
+  field_shift [mk_tilt a b] z wl (Some (dur, duc)) os IJ = Ok (sr, sc) ->
+  tilted_window oe' Pr' Pc' sr sc = Some ((Ir', Ic'), (isr', isc'), (shr', shc')) ->
+  (0 <= i < Ir)%Z -> (0 <= j < Ic)%Z -> (0 <= i' < Ir')%Z -> (0 <= j' < Ic')%Z ->
+  let ie := intersection_extent oe (array_extent Pr Pc (qfix 0) (qfix 0)) in
+  let ie' := intersection_extent oe' (array_extent Pr' Pc' (qfix sr) (qfix sc)) in
+  (i + fst (fst (fst ie)) = i' + fst (fst (fst ie')))%Z -> (j + snd (fst ie) = j' + snd (fst ie'))%Z ->
+  wavefront_tilt (Some [a; b]) = Ok [mk_tilt a b]
+  /\ get (dft2 sq (mkArr (nr f) (nc f) (fun x y =>
+          (get f x y * ke (- (opd_ramp a b dxr dxc (x - nr f / 2 + offr) (y - nc f / 2 + offc) / wl)))%K))
+         (dft_alpha dxr dur wl z os) (dft_alpha dxc duc wl z os) Ir Ic shr shc offr offc true) i j
+     = get (dft2 sq f (dft_alpha dxr dur wl z os) (dft_alpha dxc duc wl z os) Ir' Ic' shr' shc' offr offc true) i' j'.
+Proof.
+  exact (fun S R Kn sq f a b dxr dxc dur duc wl z os offr offc oe Pr Pc Ir Ic isr isc shr shc
+             oe' Pr' Pc' Ir' Ic' isr' isc' shr' shc' sr sc i j i' j' H1 H2 H3 H4 H5 P1 P2 P3 P4 W1 Hs W2 Hi Hj Hi' Hj' Er Ec =>
+         conj (wavefront_tilt_is_tilt_plane a b)
+           (representations_agree S R Kn sq f a b dxr dxc dur duc wl z os offr offc
+             oe Pr Pc Ir Ic isr isc shr shc oe' Pr' Pc' Ir' Ic' isr' isc' shr' shc' sr sc i j i' j'
+             H1 H2 H3 H4 H5 P1 P2 P3 P4 W1 Hs W2 Hi Hj Hi' Hj' Er Ec)).
+Qed.
+Print Assumptions C04_representations_agree.
+
 (* (e) fit_tilt on a (segment) mask, over the reals.  b = masked basis {1, r*dx_r, -c*dx_c} (ptt_vector);
    t = what np.linalg.lstsq returns (contract: a solution of the normal equations).  If the masked basis is
    linearly independent: t is the only solution and the unique least-squares minimiser; the new OPD has
